@@ -67,12 +67,12 @@ def main():
                 "name": "dsim",
                 "path": "/verif/dsim",
                 "serves_properties": [c["property_id"] for c in checks],
-                "kind_free_text": "deterministic simulation with fault injection: baton-passing scheduler over real threads, virtual clock, simulated TCP with byte-offset faults, decision-log replay and minimisation",
+                "kind_free_text": "deterministic simulation with fault injection: baton-passing scheduler over real threads (yield points at every simulated primitive plus sampled LINE events, starvation and stall faults), virtual clock, simulated TCP with segmentation, short writes, flow control, byte-offset reset/stall faults and receive cost, scripted byte-level peer, decision-log replay and minimisation",
             }
         ],
         "checks": checks,
         "not_applicable": na,
-        "notes": "Every check imports pynetdicom from /repo's working tree at run time (sys.path[0]=/repo; asserted). Exit 0 clean (KNOWN-FINDING lines allowed), 1 with VIOLATION lines, 2 harness error. VERIF_SEED selects the seed; VERIF_NPROC the worker count (default 16).",
+        "notes": "Sensitivity: seeded/<id>/ holds independently written changes to pynetdicom with the checks that catch them (DESIGN.md 13.6). Every check imports pynetdicom from /repo's working tree at run time (sys.path[0]=/repo; asserted). Exit 0 clean (KNOWN-FINDING lines allowed), 1 with VIOLATION lines, 2 harness error. VERIF_SEED selects the seed; VERIF_NPROC the worker count (default 16).",
     }
     with open(os.path.join(VERIF, "MANIFEST.json"), "w") as f:
         json.dump(man, f, indent=1)
